@@ -415,9 +415,13 @@ class Array:
 
         """
         array = self._checkarrayforappend(array)
-        fd.seek(0, 2)  # move to end
+        endpos = fd.seek(0, 2)  # move to end
         array.tofile(fd)
         fd.flush()
+        # numpy's tofile writes through a buffered C stream and does not
+        # always report that the file system refused (part of) the data
+        if fd.seek(0, 2) != endpos + array.nbytes:
+            raise OSError(f"could not write all data to '{self._datapath}'")
         return array.shape[0]
 
     def iterappend(self, arrayiterable):
